@@ -444,6 +444,26 @@ theorem read_rank_reachable (sch : Schema) (hok : SchemaOk sch) (ar : Kind → S
     (ops : List Op) : ReadRank sch (run sch ops) (fun x name => ar ((run sch ops).kindOf x) name) :=
   readRank_of_attrRank sch (run sch ops) ar har (kindsOk_reachable sch hok ops)
 
+/-- the driver's fuel is enough on EVERY harness shape, in every reachable state with an instance, for every read: the
+    referential keys of no shape of meta_common.SHAPES refer to one another in a cycle (`shapes_attrRank`: the rank `shapeRank`
+    drops along every key pair and never exceeds 2), every shape is SchemaOk, hence `ReadRank` holds in every reachable state
+    (read_rank_reachable) within the bound `count + layerBound` — no referential read of a correspondence run is an
+    out-of-fuel `none` (docs/audit-round4.md, finding 10) -/
+theorem driver_reads_converged_on_shapes (sch : Schema) (h : sch ∈ allShapes) (at_ : Attrs) (ops : List Op)
+    (x : Inst) (name : String) (hc : 1 ≤ (run sch ops).count) :
+    getAttr sch at_ (run sch ops) (driverFuel sch (run sch ops)) x name =
+      readValue sch at_ (run sch ops) (fun y n => shapeRank sch ((run sch ops).kindOf y) n) x name := by
+  apply driver_fuel_sufficient sch at_ (run sch ops) _
+    (read_rank_reachable sch (shapes_all_schemaOk sch h) (shapeRank sch) (shapes_attrRank sch h).1 ops) x name
+  have h1 := shapeRank_le sch ((run sch ops).kindOf x) name
+  have h2 := (shapes_attrRank sch h).2
+  omega
+
+/-- applied: the A.B_Id → B.Id → C.Id shape after a history that links the chain -/
+example : shapeRefIdChain ∈ allShapes ∧
+    1 ≤ (run shapeRefIdChain [.new 2 true, .new 1 false, .new 0 true, .relate 1 0 "R9" "", .relate 2 1 "R8" ""]).count := by
+  decide
+
 /-- the clause and the driver's fuel APPLIED to the chain: N0 reads, through five hops, the id of Z5 -/
 example : getAttr schChain atChain stChain (driverFuel schChain stChain) 0 "Next_Id" =
     readValue schChain atChain stChain (fun x _ => 5 - x) 0 "Next_Id" :=
